@@ -1666,19 +1666,19 @@ impl FixtureDatabase {
 
             // Check each dependency
             for dep_name in &fixture_def.dependencies {
-                // Find the dependency's definition (use resolution logic to get correct one)
-                if let Some(dep_definitions) = self.definitions.get(dep_name) {
-                    // Find best matching definition for the dependency
-                    // Use the first one (most local) - matches cycle detection behavior
-                    if let Some(dep_def) = dep_definitions.first() {
-                        // Check if scope mismatch: fixture has broader scope than dependency
-                        // FixtureScope is ordered: Function < Class < Module < Package < Session
-                        if fixture_def.scope > dep_def.scope {
-                            mismatches.push(ScopeMismatch {
-                                fixture: fixture_def.clone(),
-                                dependency: dep_def.clone(),
-                            });
-                        }
+                // Resolve the dependency as pytest would from this fixture's file
+                // (a self-named dependency refers to the overridden parent).
+                let exclude = (dep_name == &fixture_def.name).then_some(fixture_def);
+                if let Some(dep_def) =
+                    self.find_closest_definition_excluding(file_path, dep_name, exclude)
+                {
+                    // Check if scope mismatch: fixture has broader scope than dependency
+                    // FixtureScope is ordered: Function < Class < Module < Package < Session
+                    if fixture_def.scope > dep_def.scope {
+                        mismatches.push(ScopeMismatch {
+                            fixture: fixture_def.clone(),
+                            dependency: dep_def,
+                        });
                     }
                 }
             }
